@@ -103,6 +103,11 @@ C20(a, b) ==
     THEN (IF a.panic # b.panic THEN {V("C20.panic-differs", <<a.what, a.api, a.panic, b.panic>>)} ELSE {})
          \cup (IF a.panic = b.panic /\ a.val # b.val THEN {V("C20.result", <<a.what, a.api, a.val, b.val>>)} ELSE {})
     ELSE IF a.k = "stats" THEN (IF a # b THEN {V("C20.result", "statistics")} ELSE {})
+    ELSE IF a.k = "cur"     \* query call sequences (arkexec -cursor): same panics, same results, same lock after every call
+    THEN (IF [i \in DOMAIN a.out |-> a.out[i].panic] # [i \in DOMAIN b.out |-> b.out[i].panic]
+          THEN {V("C20.panic-differs", <<a.calls, a.out, b.out>>)}
+          ELSE IF a.out # b.out THEN {V("C20.result", <<a.calls, a.out, b.out>>)} ELSE {})
+    ELSE IF a.k = "curlayout" THEN (IF a # b THEN {V("C20.result", "cursor layout")} ELSE {})
     ELSE IF a.k = "reg"     \* registry histories up to 64 types: the capacity of the build (max) is the only difference
     THEN (IF a.panic # b.panic THEN {V("C20.panic-differs", <<a.op, a.t, a.ids, a.panic, b.panic>>)} ELSE {})
          \cup (IF a.id # b.id \/ a.ok # b.ok \/ a.count # b.count THEN {V("C20.result", <<a.op, a.t, a.ids>>)} ELSE {})
@@ -119,7 +124,8 @@ SetToSeq(S) == LET RECURSIVE G(_) G(T) == IF T = {} THEN <<>> ELSE LET x == CHOO
 PInit == l = 1 /\ viol = <<>> /\ oma = <<>> /\ omb = <<>>
 PNext == /\ l <= Len(Trace)
          /\ l' = l + 1
-         /\ viol' = IF Trace[l].k = "prod" THEN viol \o SetToSeq(Cmp(Trace[l])) ELSE viol
+         \* (at most ~300 disagreements are collected: every further one costs time and adds nothing to the verdict)
+         /\ viol' = IF Trace[l].k = "prod" /\ Len(viol) < 300 THEN viol \o SetToSeq(Cmp(Trace[l])) ELSE viol
          /\ IF Trace[l].k = "prod" /\ Trace[l].a.k = "op" /\ Trace[l].b.k = "op"
             THEN oma' = Trace[l].a.om /\ omb' = Trace[l].b.om
             ELSE UNCHANGED <<oma, omb>>
